@@ -343,6 +343,8 @@ func applyKnown(p *idl.Program, c *genCase) {
 			drop("raw-struct-union-default", "template", "enable_nested_struct")
 		case t == "raw_struct" && vt.Known(prop, "raw-struct-extends-import") && hasCrossFileExtends(p):
 			drop("raw-struct-extends-import", "template", "enable_nested_struct")
+		case t == "raw_struct" && vt.Known(prop, "raw-struct-default-import") && len(p.Files) > 1:
+			drop("raw-struct-default-import", "template", "enable_nested_struct")
 		}
 	}
 }
